@@ -229,8 +229,10 @@ fn run_shots<RK: RadioKind, C: Probe>(
         shots.push(Shot { expected_len: case.len, reported_len: reported, start, status: None, pkt_status: ps, nonce: rng.u8() });
     }
     if var.is_126x() {
-        for (j, s) in STATUSES.iter().enumerate() {
-            for t in 0..3u32 {
+        // under the sanitizers: two status bytes, one shot each
+        let (ns, nt) = if case.offsets == 256 { (STATUSES.len(), 3u32) } else { (2, 1u32) };
+        for (j, s) in STATUSES.iter().enumerate().take(ns) {
+            for t in 0..nt {
                 let start = match t {
                     0 => 0,
                     1 => 255u8.wrapping_sub(case.len / 2),
